@@ -347,27 +347,48 @@ func (w *World) lookupRule(r *Report, fi *FuncInfo, maxW int64) {
 	} else {
 		r.Fail(VViolation, "lookup", fi.Key, "hasmask", pos, "result.HasMask = "+hm+", want the hasMask argument")
 	}
-	base := "val(" + elem + ".Length)"
-	wantWrap := "ite(arg:hasMask ? wrap[uint8](2*" + base + ") : " + base + ")"
-	wantPlain := base + " + ite(arg:hasMask ? " + base + " : 0)"
-	wantPlain2 := "ite(arg:hasMask ? 2*" + base + " : " + base + ")"
-	switch lenS {
-	case wantWrap:
-		if maxW*2 <= 255 {
-			r.OK("lookup", fi.Key, "width", pos, fmt.Sprintf("result.Length = %s; doubling in uint8 cannot wrap: the widest registered field has %d bytes", lenS, maxW), true)
-		} else {
-			r.Fail(VViolation, "lookup", fi.Key, "width", pos, fmt.Sprintf("the masked width is doubled in uint8 and wraps for the registered width %d", maxW))
+	// width: the registered width, doubled exactly when a mask is requested (compared as terms, so the
+	// spelling — a local, *= 2, <<= 1, an added copy — does not matter)
+	{
+		base := ValOf(elem + ".Length")
+		want := Ite("arg:hasMask", base.Scale(2), base)
+		lv, isInt := cs.Fields["$.Length"].(IntV)
+		switch {
+		case !isInt || lv.T == nil:
+			r.Fail(VViolation, "lookup", fi.Key, "width", pos, "result.Length = "+lenS+", want the registered width, doubled exactly when a mask is requested")
+		default:
+			hasWrap := lv.T.HasAtom(func(a *Atom) bool { return a.Kind == "wrap" })
+			got := negNorm(stripWraps(lv.T, map[string]bool{}))
+			if !termsEqual(got, negNorm(want)) {
+				r.Fail(VViolation, "lookup", fi.Key, "width", pos, "result.Length = "+lenS+", want the registered width, doubled exactly when a mask is requested")
+			} else if hasWrap && maxW*2 > 255 {
+				r.Fail(VViolation, "lookup", fi.Key, "width", pos, fmt.Sprintf("the masked width is doubled in uint8 and wraps for the registered width %d", maxW))
+			} else if hasWrap {
+				r.OK("lookup", fi.Key, "width", pos, fmt.Sprintf("result.Length = %s; doubling in uint8 cannot wrap: the widest registered field has %d bytes", lenS, maxW), true)
+			} else {
+				r.OK("lookup", fi.Key, "width", pos, "result.Length = "+lenS, true)
+			}
 		}
-	case wantPlain, wantPlain2:
-		r.OK("lookup", fi.Key, "width", pos, "result.Length = "+lenS, true)
-	default:
-		r.Fail(VViolation, "lookup", fi.Key, "width", pos, "result.Length = "+lenS+", want the registered width, doubled exactly when a mask is requested")
 	}
 	// errors: an unknown name must yield (nil, error)
 	okErr := false
+	// the comma-ok variable of the registry lookup, whatever it is called
+	okName := ""
+	ast.Inspect(fi.Decl.Body, func(m ast.Node) bool {
+		if as, ok := m.(*ast.AssignStmt); ok && len(as.Lhs) == 2 && len(as.Rhs) == 1 {
+			if ix, ok := unparen(as.Rhs[0]).(*ast.IndexExpr); ok {
+				if _, isMap := fi.Pkg.TypesInfo.TypeOf(ix.X).Underlying().(*types.Map); isMap {
+					if id, ok := as.Lhs[1].(*ast.Ident); ok {
+						okName = id.Name
+					}
+				}
+			}
+		}
+		return true
+	})
 	for _, rt := range cs.FS.Rets {
 		if rt.IsErr && len(rt.Vals) == 2 {
-			if _, isNil := rt.Vals[0].(NilV); isNil && strings.Contains(rt.Guard, "found") {
+			if _, isNil := rt.Vals[0].(NilV); isNil && okName != "" && strings.Contains(rt.Guard, okName) {
 				okErr = true
 			}
 		}
